@@ -36,8 +36,9 @@ Quiet == \A c \in 0..MaxP : pending[c] = << >> /\ filling[c] = -1
 
 Step(e) ==
     \/ /\ e.ev = "scan.begin" /\ l = 1
-       \* the documented sizing: one cache more than min(GOMAXPROCS, slabs - 1) workers
-       /\ NZ >= 2 /\ NZ <= MaxZ /\ NC = Min(R.procs, NZ - 1) + 1
+       \* (how many caches the code allocates - one more than min(GOMAXPROCS, slabs - 1) - is its own
+       \* choice: the protocol and its invariants are stated for any number of caches)
+       /\ NZ >= 2 /\ NZ <= MaxZ /\ NC >= 1 /\ NC <= MaxP + 1
        /\ UNCHANGED <<vars, lab>>
     \/ /\ e.ev = "scan.fill.begin"
        /\ \E c \in Caches : /\ FillBegin(c) /\ Head(pending[c]) = e.z
